@@ -191,7 +191,8 @@ def generate(seed, tier):
             "short_reads": rng.random() < 0.8, "listdir_seeds": [rng.randrange(1 << 30),
                                                                  rng.randrange(1 << 30)],
             # stub fidelity: the same commands once more as real processes on a real directory
-            "real": rng.random() < (0.02 if tier == "quick" else 0.004)}
+            "real": rng.random() < (0.02 if tier == "quick" else 0.004),
+            "topnode_probe": rng.random() < 0.08}
 
 
 # ---------------------------------------------------------------------------------- execute
@@ -424,6 +425,30 @@ def execute(sc, sim):
                     break
         if bad:
             break
+    # ---- totality with a node on top: the first conversion once more with `--trans
+    #      add_topnode` (documented without prerequisite).  The old root stops being the root,
+    #      so whatever the reader left undefined on it now reaches the writer; the command must
+    #      still succeed and write a file of the destination format (content not judged)
+    if sc.get("topnode_probe") and not viols and not sc["dirmode"] \
+            and plans[0][0][2] not in ("REFUSE", None):
+        st.probe("conversion_with_add_topnode")
+        s0 = steps[0]
+        destT = "/sim/w/outT%s" % EXT[s0["dest_fmt"]]
+        obsT = sim.run(dict(base, files=dict(files), sessions=[{"id": "s0", "ops": [
+            ["cli", argv_for(s0, sc["files"][0]["path"], destT) + ["--trans", "add_topnode"]]]}]))
+        st.add_obs(obsT)
+        rT = obsT["sessions"]["s0"][0] if obsT["sessions"]["s0"] else {"exc": "hang"}
+        if "exc" in rT or rT["ok"].get("exit") != 0:
+            viols.append(cm.viol("C03/with-add_topnode/command-failed/%s/%s"
+                                 % (pair_sig(s0), rT.get("exc") or "exit"), msg=rT.get("msg")))
+        elif destT not in obsT["files"]:
+            viols.append(cm.viol("C03/with-add_topnode/destination-missing/%s" % pair_sig(s0)))
+        else:
+            try:
+                decode_dest(obsT["files"][destT], s0["dest_fmt"], s0["dest_enc"], s0["dopts"])
+            except rc.DecodeError as e:
+                viols.append(cm.viol("C03/with-add_topnode/destination-undecodable/%s"
+                                     % pair_sig(s0), error=str(e)[:200]))
     shape = (tuple((s["src_fmt"], s["dest_fmt"], "+".join(sorted(s["sopts"])),
                     "+".join(sorted(s["dopts"])), s["src_enc"], s["dest_enc"]) for s in steps),
              sc["dirmode"], len(sc["files"]), sc["one_process"], sc["files"][0]["gz"],
